@@ -60,6 +60,10 @@ DBG_PREFIXES = ("unit_pool_3_4", "unit_mtctx_2", "unit_mtresize_a", "mt_oneshot"
 # building / running
 
 def build_harness(variant, extra_defs=()):
+    if variant == "leg1":   # ZSTD_LEGACY_SUPPORT=1: the v0.1 ... v0.4 decoders are dispatched too (the default build starts at v0.5)
+        variant, extra_defs = "o1", tuple(extra_defs) + ("-UZSTD_LEGACY_SUPPORT", "-DZSTD_LEGACY_SUPPORT=1")
+    if variant == "leg1asan":
+        variant, extra_defs = "asan", tuple(extra_defs) + ("-UZSTD_LEGACY_SUPPORT", "-DZSTD_LEGACY_SUPPORT=1")
     if variant == "dbg":   # -DDEBUGLEVEL=1: asserts on, and lib/common/threading.c allocates every mutex / condition with ZSTD_malloc
         variant, extra_defs = "o1", tuple(extra_defs) + ("-DDEBUGLEVEL=1",)
     return core.build_harness("c13_fault", harness_sources(), variant=variant, extra_flags=HARNESS_FLAGS, extra_defs=extra_defs,
@@ -123,7 +127,38 @@ def run_many(exe, jobs, timeout_s, wall, workers=None):
 # --------------------------------------------------------------------------
 # direct oracle
 
-def judge(d):
+# round 3: allocator-bypass oracle.  In a scenario whose objects are created with the counting ZSTD_customMem, every request the
+# library makes inside an API call must reach that allocator; a libc malloc / calloc / realloc inside such a call (lower-case event)
+# is a bypass.  Not bypasses: the objects the API can only create with the default allocator (ZSTD_createCCtxParams,
+# ZSTD_createThreadPool and what ZSTDMT_resize adds to that caller-owned pool through the pool's own allocator), the scenario
+# families that use the default allocator on purpose (simple API, trainers, contrib/seekable_format), the debug build (every mutex /
+# condition is a ZSTD_malloc of lib/common/threading.c).  Known, reported with their keys: the legacy decoders (contexts and
+# buffers from libc malloc whatever the DCtx's allocator) and ZSTD_generateSequences.
+BYPASS_FREE_SCEN = ("simple_api", "simple_dict_api", "train_", "thr_opt_", "seekable_")
+BYPASS_OK_CALLS = ("createCCtxParams", "freeCCtxParams", "createThreadPool", "freeThreadPool")
+SHARED_POOL_SCEN = ("mt2_threadpool", "thr_threadpool", "mt3_refpool")
+
+
+def bypass_events(d):
+    """[(call, event token)] of libc allocation requests inside API calls of a custom-allocator scenario"""
+    sc = str(d.get("s", ""))
+    if sc.startswith(BYPASS_FREE_SCEN):
+        return []
+    res, cur = [], None
+    for t in d.get("ev", "").split():
+        c = t[0]
+        if c == "[":
+            cur = t[1:].split(":")[0]
+        elif c == "]":
+            cur = None
+        elif c in "an" and cur is not None and cur not in BYPASS_OK_CALLS:
+            if sc.startswith(SHARED_POOL_SCEN) and cur == "compress":   # POOL_resize of the caller's pool, through the pool's allocator
+                continue
+            res.append((cur, t))
+    return res
+
+
+def judge(d, variant="o1"):
     """property statement on one case line -> list of (class, text)"""
     out = []
     if "unparsable" in d:
@@ -154,6 +189,11 @@ def judge(d):
         # operation must report the failure
         out.append(("not-reported", "an allocation failed inside a call that nevertheless returned success: "
                     + ";".join(x for x in d.get("ops", "").split(";") if "despite" in x)[:200]))
+    if variant != "dbg":
+        by = bypass_events(d)
+        if by:
+            out.append(("allocator-bypass", "%d request(s) made through libc malloc / calloc inside API calls of objects created with a custom allocator: %s"
+                        % (len(by), " ".join("%s:%s" % b for b in by[:6]))))
     return out
 
 
@@ -165,6 +205,17 @@ def finding_key(d, cls, variant="o1"):
         return "fastcover-segmentFreqs-null"
     site = failing_site(d)
     ff = ([t for t in d.get("ev", "").split() if t[0] in "Nnu"] or [""])[0]   # the first refused request, e.g. "n5:40"
+    if cls == "allocator-bypass":
+        calls = set(c for c, _ in bypass_events(d))
+        if sc.startswith(("legacy_", "leg4_")) and calls <= {"lstream", "dstream", "decompressDCtx"}:
+            return "legacy-decoders-bypass-custom-allocator"
+        if calls == {"generateSequences"}:
+            return "C14-generatesequences-default-malloc"
+        return None
+    if sc.startswith("leg4_"):
+        return "zbuffv04-stream-second-doors"
+    if sc.startswith("refddict_fail") and (bad or (cls == "api" and "failed-refDDict-took-effect" in d.get("violtxt", ""))):
+        return "dctx-refddict-failed-call-takes-effect"
     if cls == "not-reported" and sc.startswith(("rand_", "mt")) and ff.startswith("N") and ff.endswith(":98304"):
         # a sequence buffer (ZSTD_ldm_getMaxNbSeq(jobSize 512 KB) * sizeof(rawSeq)) requested by a job of a frame without LDM
         return "mt-stale-seqpool-size-after-ldm-frame"
@@ -368,7 +419,7 @@ def same_groups(gr, gm):
     return True
 
 
-def compare(calls, live, mres, opmap=None, check_live=True):
+def compare(calls, live, mres, opmap=None, check_live=True, nostatus=()):
     """first difference between the real calls and the model result, or None"""
     opmap = OPMAP if opmap is None else opmap
     mcalls = parse_model(mres["trace"])
@@ -382,7 +433,7 @@ def compare(calls, live, mres, opmap=None, check_live=True):
         if not same_groups(gr, gm):
             return "call #%d %s: allocation / free events differ: real %s model %s" % (i + 1, c["name"], gr, gm)
         res = c["res"]
-        if res is not None and res != "" and c["name"] in opmap:   # unmodelled calls: only "no allocator event" is predicted
+        if res is not None and res != "" and c["name"] in opmap and c["name"] not in nostatus:   # unmodelled calls: only "no allocator event" is predicted
             rok = res == "ok"
             if rok != mok:
                 return "call #%d %s: status differs: real %s model %s" % (i + 1, c["name"], res, "ok" if mok else "error")
@@ -392,8 +443,52 @@ def compare(calls, live, mres, opmap=None, check_live=True):
     return None
 
 
+# round 3: DCtx + multi-DDict set + borrowed DDicts (coq/Mem/AllocBorrow.v): scenarios replayed through AllocBorrow.run_bops
+# (repaired ZSTD_DCtx_refDDict; the expansion test is decided by the number of allocation attempts the real call made).  The
+# status of the decoding call is not compared: after a refused reference it fails for its content (dictionary_wrong)
+BORROW_TIED = ("refddict_",)
+BOPMAP = {"createDCtx": lambda c: "1", "freeDCtx": lambda c: "2", "refDDict": lambda c: "3:%d,%d" % (c["ps"][0], c["natt"]),
+          "decompressDCtx": lambda c: "4", "DCtx_reset_params": lambda c: "5",
+          "createDDict": lambda c: "6:%d,%d" % (c["ps"][0], c["ps"][1]), "freeDDict": lambda c: "7:%d" % c["ps"][0]}
+
+
+def tie_borrow(mexe, cases, scratch, tag):
+    """cases: list of (d, calls, faults, live) -> [(d, first difference, model case text, model trace)]"""
+    bad, lines, keep = [], [], []
+    for i, (d, calls, faults, live) in enumerate(cases):
+        stray_calls = [c for c in calls if c["name"] not in BOPMAP and c["cev"]]
+        if stray_calls:
+            bad.append((d, "a call the model does not know touches the allocator: %s %s" % (stray_calls[0]["name"], stray_calls[0]["cev"][:4]), "", ""))
+            continue
+        mc = [c for c in calls if c["name"] in BOPMAP]
+        for c in mc:
+            c["natt"] = sum(1 for e in c["cev"] if e[0] == "A")
+        ops = ";".join(BOPMAP[c["name"]](c) for c in mc)
+        lines.append("BCASE %d|%s|%s\n" % (i, ",".join(str(k) for k in faults) if faults else "-", ops))
+        keep.append((i, d, mc, faults, live, ops))
+    if not keep:
+        return bad
+    path = os.path.join(scratch, "model-borrow-%s.in" % tag)
+    with open(path, "w") as f:
+        f.write("".join(lines))
+    rc, out, err = core.sh("%s < %s" % (mexe, path), timeout=600)
+    if rc != 0 or "TOTAL" not in out:
+        raise RuntimeError("C13 model driver failed on the borrowed-DDict cases rc=%d: %s" % (rc, (out[-300:] + err[-500:])))
+    res = {}
+    for ln in out.split("\n"):
+        if ln.startswith("RES "):
+            cid, trace, mlive, errs = ln[4:].split("|")
+            res[cid] = dict(trace=trace, live=mlive, errs=errs)
+    for i, d, mc, faults, live, ops in keep:
+        m = res.get(str(i))
+        diff = "no model result" if m is None else compare(mc, live, m, opmap=BOPMAP, nostatus=("decompressDCtx",))
+        if diff:
+            bad.append((d, diff, "BCASE x|%s|%s" % (",".join(map(str, faults)) or "-", ops), (m or {}).get("trace", "")))
+    return bad
+
+
 # legacy stream decoders (coq/Mem/AllocLegacy.v): scenarios replayed through AllocLegacy.run_lops
-LEGACY_TIED = ("legacy_v07", "legacy_switch")
+LEGACY_TIED = ("legacy_v07", "legacy_switch", "leg4_v04", "leg4_versions")
 LOPMAP = {"createDCtx": lambda c: "1", "freeDCtx": lambda c: "2", "lstream": lambda c: "3:0,0"}
 
 
@@ -498,6 +593,7 @@ class Batch:
         self.oracle_hits = []
         self.tie_breaks = []
         self.nb = 0
+        self.ncases = 0
 
     def process(self, jobs, tag, timeout_s, wall, tie=True, res=None):
         ctx = self.ctx
@@ -506,15 +602,17 @@ class Batch:
             res = run_many(self.exe, jobs, timeout_s, wall)
         cases = []
         lcases = []
+        bcases = []
         allocs_of = {}
         for args, lines, err, rc in res:
             if rc not in (0,) or not lines:
                 self.report_oracle(dict(s=args[1] if len(args) > 1 else "?", k=[], signal=0, exit=rc), ("harness", "harness run %s ended with rc=%s and %d lines: %s" % (args, rc, len(lines), err[-400:])))
             for d in lines:
+                self.ncases += 1
                 sc = d.get("s", "?")
                 if not d.get("k"):
                     allocs_of[sc] = d.get("allocs", 0)
-                hits = judge(d)
+                hits = judge(d, self.variant)
                 site = failing_site(d)
                 sig = (sc, site, tuple(h[0] for h in hits))
                 ctx.count(sig, nontrivial=bool(d.get("k")) and (d.get("failed", 0) > 0 or "signal" in d))
@@ -536,11 +634,21 @@ class Batch:
                     faults, live = renumber(calls, stray)
                     cid = "%s-%d-%d" % (tag, self.nb, len(cases))
                     cases.append((cid, faults, model_case(calls), d, calls, live, stray))
+                if tie and sc.startswith(BORROW_TIED) and "signal" not in d and "ev" in d:
+                    calls, stray = parse_real(d["ev"])
+                    faults, live = renumber(calls, stray)
+                    bcases.append((d, calls, faults, live))
                 if tie and sc.startswith(LEGACY_TIED) and "signal" not in d and "ev" in d:
                     calls, stray = parse_real(d["ev"])
                     faults, live = renumber(calls, stray, plain_custom=True)
                     lcases.append((d, calls, faults, live))
         ctx.notes.setdefault("allocs_per_scenario", {}).update(allocs_of)
+        if bcases:
+            for d, diff, mcase, mtrace in tie_borrow(self.mexe, bcases, ctx.scratch, "%s-%d" % (tag, self.nb)):
+                self.tie_breaks.append((dict(kind="tie", scenario=d["s"], k=d.get("k", []), variant=self.variant, first_difference=diff,
+                                             model_case=mcase, real_events=d.get("ev", "")[:3000], model_trace=mtrace[:3000]), diff))
+            ctx.cov["traces_validated_against_impl"] += len(bcases)
+            ctx.notes["borrowed_ddict_cases_tied"] = ctx.notes.get("borrowed_ddict_cases_tied", 0) + len(bcases)
         if lcases:
             for d, diff, mcase, mtrace in tie_legacy(self.mexe, lcases, ctx.scratch, "%s-%d" % (tag, self.nb)):
                 self.tie_breaks.append((dict(kind="tie", scenario=d["s"], k=d.get("k", []), variant=self.variant, first_difference=diff,
@@ -626,7 +734,9 @@ def run(ctx):
     if ctx.replay_file:
         return replay(ctx, mexe)
     rng = random.Random(ctx.seed * 7919 + 13)
-    scens = list_scenarios(exe)
+    scens_all = list_scenarios(exe)
+    leg4 = [(n, h) for n, h in scens_all if n.startswith("leg4_")]   # v0.4 frames: only a ZSTD_LEGACY_SUPPORT <= 4 build decodes them
+    scens = [(n, h) for n, h in scens_all if not n.startswith("leg4_")]
     b = Batch(ctx, exe, mexe, variant)
     t0 = time.time()
     # 1. the whole catalogue, exhaustive over k, + sampled multiple faults
@@ -658,6 +768,15 @@ def run(ctx):
     b.oracle_hits += bd.oracle_hits
     ctx.notes["debug_build_scenarios"] = len(dbg_scens)
     core.log("C13: + debug-build sweep: %.1fs" % (time.time() - t0))
+    # 2c. round 3: a ZSTD_LEGACY_SUPPORT=1 build (dispatches v0.1 ... v0.7): the v0.4 stream decoder behind ZSTD_decompressStream
+    # (ZBUFFv04_*; plain malloc), every k + sampled multiple faults; tied to AllocLegacy.run_lops like the v0.5 - v0.7 scenarios
+    exl = build_harness("leg1")
+    bl = Batch(ctx, exl, mexe, "leg1")
+    bl.process(jobs_for(leg4, rng, ctx.quick, 25 if ctx.quick else 400), "leg1", timeout_s=40 if ctx.quick else 90, wall=900)
+    b.oracle_hits += bl.oracle_hits
+    b.tie_breaks += bl.tie_breaks
+    ctx.notes["legacy_support_1_build_scenarios"] = len(leg4)
+    core.log("C13: + ZSTD_LEGACY_SUPPORT=1 build (v0.4 stream decoder): %.1fs" % (time.time() - t0))
     # 3. proof step
     ctx.prove()
     core.log("C13: + proof step: %.1fs" % (time.time() - t0))
@@ -669,6 +788,17 @@ def run(ctx):
         ba.process(jobs_for(scens, rng, False, 100), "asan", timeout_s=240, wall=1500)
         b.oracle_hits += ba.oracle_hits
         b.tie_breaks += ba.tie_breaks
+        # round 3: a custom allocator whose blocks are 8- but not 16-byte aligned (C13_MISALIGN=8), fault-free run and every k of the
+        # scenarios that create their objects with it, under ASan + UBSan (alignment checks)
+        os.environ["C13_MISALIGN"] = "8"
+        try:
+            bm = Batch(ctx, exa, mexe, "asan")
+            bm.process([["sweep", n] for n, h in scens if n.startswith(("cctx_", "compress_l", "load_dict_", "cdict_", "cstream", "mt_oneshot", "mt_ldm", "unit_", "dctx_", "dstream_grow", "ddict_", "multi_ddict_20", "copy_", "refddict_"))],
+                       "misalign", timeout_s=240, wall=1500, tie=False)
+            b.oracle_hits += bm.oracle_hits
+            ctx.notes["misaligned_allocator_cases"] = bm.ncases
+        finally:
+            del os.environ["C13_MISALIGN"]
         # coqchk re-validates the meta-theory (soundness of the analysis for every program / oracle, history lemmas).  The
         # instance files are not given to coqchk: their vm_compute steps (closed sets of ~10^4 abstract states) are checked
         # by coqc's kernel on every build, and coqchk has no VM (it would re-run them with lazy conversion for hours).
